@@ -1,23 +1,23 @@
 """Helpers shared by the TSMMerge.tla checks (C37, C06, C04): configuration text, TLC run + dump -> replay cases,
-seeded explicit inputs (the spec's `Picks` constant) rendered as a generated module that extends TSMMerge."""
+seeded explicit inputs (the spec's NPicks / PickAt constants) rendered as a generated module that extends TSMMerge."""
 import vlib
 
 ALL_TYPES = ['float', 'integer', 'unsigned', 'string', 'boolean']
 
 
 def cfg_text(family, nts, nfiles=1, nkeys=1, maxblocks=2, tombmode='none', keymode='full', maxlen=0, ppbs='PPBSmall',
-             picks='NoPicks', invariants=()):
+             npicks=0, invariants=()):
     lines = ['SPECIFICATION Spec', 'CONSTANTS',
              f'  Family = "{family}"', f'  NTs = {nts}', f'  NFiles = {nfiles}', f'  NKeys = {nkeys}',
              f'  MaxBlocks = {maxblocks}', f'  TombMode = "{tombmode}"', f'  KeyMode = "{keymode}"', f'  MaxLen = {maxlen}',
-             f'  PPBs <- {ppbs}', f'  Picks <- {picks}']
+             f'  PPBs <- {ppbs}', f'  NPicks = {npicks}', f'  PickAt <- {"ThePick" if npicks else "NoPick"}']
     if invariants:
         lines.append('INVARIANTS ' + ' '.join(invariants))
     lines.append('CHECK_DEADLOCK FALSE')
     return '\n'.join(lines) + '\n'
 
 
-def run_family(ctx, cfg, *, spec='TSMMerge', extra_files=None, workers=8, timeout=900, tag=None):
+def run_family(ctx, cfg, *, spec='TSMMerge', extra_files=None, workers=None, timeout=3600, tag=None):
     """Model-check one configuration (invariants = implementation layer agrees with the contract layer on every input),
     guard against vacuity, and return (TLCResult, list of case states)."""
     r = ctx.tlc(spec, cfg, workers=workers, timeout=timeout, dump=True, coverage=True, extra_files=extra_files, tag=tag)
@@ -26,7 +26,7 @@ def run_family(ctx, cfg, *, spec='TSMMerge', extra_files=None, workers=8, timeou
     if not r.ok:
         tail = '\n'.join(r.stdout.splitlines()[-40:])
         raise vlib.Inconclusive(f'TLC did not pass on {spec} ({tag}): violated={r.violated}\n{tail}')
-    ctx.check_coverage(r, ['DoGenInput', 'DoExpect'])
+    ctx.check_coverage(r, ['DoGenInput', 'DoExpect'] + (['DoLoadPick'] if spec != 'TSMMerge' else []))
     cases = []
     n_in = 0
     for st in ctx.dump_states(r):
@@ -58,8 +58,15 @@ def tla(v):
 
 
 def picks_module(name, picks):
-    body = ',\n  '.join(tla(p) for p in picks)
-    return (f'---- MODULE {name} ----\nEXTENDS TSMMerge\nThePicks == <<\n  {body}\n>>\n====\n')
+    """Module <name> EXTENDS TSMMerge and defines ThePick(n) as a balanced IF tree over n, so that TLC builds only the
+    requested input (a single big tuple constant would be rebuilt on every reference)."""
+    def tree(lo, hi, ind):
+        if lo == hi:
+            return tla(picks[lo - 1])
+        mid = (lo + hi) // 2
+        pad = ' ' * ind
+        return (f'IF n <= {mid}\n{pad}THEN {tree(lo, mid, ind + 2)}\n{pad}ELSE {tree(mid + 1, hi, ind + 2)}')
+    return f'---- MODULE {name} ----\nEXTENDS TSMMerge\nThePick(n) ==\n  {tree(1, len(picks), 2)}\n====\n'
 
 
 def rand_slot(rng, nts, maxblocks, p_absent, p_tomb, max_tombs):
